@@ -80,9 +80,11 @@ theorem withdraw_exact_and_min_bond (s s1 : St) (q q1 : Seq) (amt : Nat) (r : Ro
             · cases h0
             · split at h0
               · cases h0
-              · injection h0 with h0; injection h0 with e1 _; subst e1
-                show getBal (setBal s.bal q.addr (getBal s.bal q.addr + amt)) q.addr = _
-                exact getBal_setBal _ _ _
+              · split at h0
+                · cases h0
+                · injection h0 with h0; injection h0 with e1 _; subst e1
+                  show getBal (setBal s.bal q.addr (getBal s.bal q.addr + amt)) q.addr = _
+                  exact getBal_setBal _ _ _
           injection h with h; injection h with e1 e2; subst e1; subst e2
           have ht : (if q0.tokens = 0 then { q0 with bonded := false } else q0).tokens = q0.tokens := by split <;> rfl
           refine ⟨by rw [ht]; exact sp.2.2.1, hbal, sp.2.1, ?_, ?_⟩
@@ -324,6 +326,111 @@ example : ((getSeq (run exLive (exPre ++ [.begin_ 1, .end_ [], .begin_ 1, .end_ 
 example : ((getSeq (run exLive (exPre ++ [exUpd, .bridge 0 1, .fraud true 0 2 0 (some 1) (some 7)])) 1).map (·.tokens),
     getBal (run exLive (exPre ++ [exUpd, .bridge 0 1, .fraud true 0 2 0 (some 1) (some 7)])).bal 7,
     (run exLive (exPre ++ [exUpd, .bridge 0 1, .fraud true 0 2 0 (some 1) (some 7)])).burned) = (some 0, 5, 5) := by decide
+
+-- ================================================================================================
+-- recipients the bank refuses (blocked module accounts)
+-- ================================================================================================
+
+/-- **`sendFromModule` never credits a blocked address**: a transfer out of the sequencer module account
+    that succeeds was addressed to a recipient the bank accepts, and it leaves the balance of EVERY
+    blocked address (`bank.BlockedAddr`, e.g. the distribution module account) exactly as it was. -/
+theorem sendFromModule_never_credits_blocked (s s1 : St) (q q1 : Seq) (amt : Nat) (to : Addr)
+    (h : sendFromModule s q amt to = .ok (s1, q1)) :
+    blockedAddr to = false ∧ ∀ b, blockedAddr b = true → getBal s1.bal b = getBal s.bal b := by
+  unfold sendFromModule at h
+  split at h
+  · cases h
+  · split at h
+    · cases h
+    · rename_i hb
+      split at h
+      · cases h
+      · injection h with h; injection h with e1 _; subst e1
+        have hto : blockedAddr to = false := by simpa using hb
+        refine ⟨hto, fun b hbb => ?_⟩
+        show getBal (setBal s.bal to (getBal s.bal to + amt)) b = getBal s.bal b
+        exact getBal_setBal_other _ _ _ _ (by intro e; subst e; rw [hto] at hbb; cases hbb)
+
+/-- a transfer to a blocked recipient is refused with the bank's recipient error (unless the bond itself
+    does not cover the amount — `Coin.Sub` panics first), before anything changes -/
+theorem sendFromModule_blocked (s : St) (q : Seq) (amt : Nat) (to : Addr) (hb : blockedAddr to = true)
+    (hle : amt ≤ q.tokens) : sendFromModule s q amt to = .error .blockedRecipient := by
+  unfold sendFromModule
+  rw [if_neg (by omega), if_pos hb]
+
+/-- `PunishSequencer` with a blocked rewardee and a non-zero reward share fails with the bank's
+    recipient error: the reward transfer's failure is the failure of the whole punishment. -/
+theorem punish_blocked_rewardee (s : St) (a to : Addr) (q : Seq) (hq : getSeq s a = some q)
+    (hb : blockedAddr to = true)
+    (hrew : ((Dec.mulInt ⟨500000000000000000⟩ (q.tokens : Int)).truncateInt).toNat ≠ 0) :
+    punish s a (some to) = .error .blockedRecipient := by
+  unfold punish
+  rw [hq]
+  dsimp only
+  unfold slash
+  dsimp only
+  rw [if_neg hrew, sendFromModule_blocked s q _ to hb (by have := punish_reward_at_most_half q.tokens; omega)]
+
+/-- **punish_blocked_rewardee_refused** — a fraud proposal that names a sequencer to punish whose reward
+    share is non-zero and a rewardee the bank refuses (a blocked module account) is REJECTED, whatever
+    the state, and (by `reject_unchanged`) changes nothing: no bond is decremented, nothing is burned,
+    nothing leaves the module account, no fork happens.  When the proposal passes the checks that come
+    before the punishment (authority, height, rollapp, revision) the error is the bank's. -/
+theorem punish_blocked_rewardee_refused (s : St) (au : Bool) (ra hh rev : Nat) (a to : Addr) (q : Seq)
+    (hq : getSeq s a = some q) (hb : blockedAddr to = true)
+    (hrew : ((Dec.mulInt ⟨500000000000000000⟩ (q.tokens : Int)).truncateInt).toNat ≠ 0) :
+    (∃ e, (step s (.fraud au ra hh rev (some a) (some to))).2 = some e) ∧
+    (step s (.fraud au ra hh rev (some a) (some to))).1 = s ∧
+    (∀ r, au = true → hh ≠ 0 → getRa s ra = some r → revForHeight r hh = rev →
+      (step s (.fraud au ra hh rev (some a) (some to))).2 = some .blockedRecipient) := by
+  have key : ∃ e, apply s (.fraud au ra hh rev (some a) (some to)) = .error e ∧
+      (∀ r, au = true → hh ≠ 0 → getRa s ra = some r → revForHeight r hh = rev → e = .blockedRecipient) := by
+    show ∃ e, fraud s au ra hh rev (some a) (some to) = .error e ∧ _
+    unfold fraud
+    by_cases h1 : au = true
+    · by_cases h2 : hh = 0
+      · exact ⟨.invalid, by simp [h1, h2], fun r _ h _ _ => absurd h2 h⟩
+      · cases h3 : getRa s ra with
+        | none => exact ⟨.unknownRollapp, by simp [h1, h2], fun r _ _ h _ => by cases h⟩
+        | some r =>
+          by_cases h4 : revForHeight r hh = rev
+          · refine ⟨.blockedRecipient, ?_, fun _ _ _ _ _ => rfl⟩
+            simp only [h1, h2, h4, punish_blocked_rewardee s a to q hq hb hrew]
+            simp
+          · refine ⟨.wrongRevision, by simp [h1, h2, h4], fun r' _ _ hr hrev => ?_⟩
+            cases hr; exact absurd hrev h4
+    · exact ⟨.unauthorized, by simp [h1], fun r h _ _ _ => absurd h h1⟩
+  obtain ⟨e, he, hcls⟩ := key
+  have hs : (step s (.fraud au ra hh rev (some a) (some to))).2 = some e := by unfold step; rw [he]
+  refine ⟨⟨e, hs⟩, reject_unchanged s _ e hs, fun r h1 h2 h3 h4 => ?_⟩
+  rw [hs, hcls r h1 h2 h3 h4]
+
+/-- the liveness slash and a punishment without rewardee never touch the recipient check (no reward
+    transfer is attempted when the reward share is zero) -/
+theorem slash_without_reward_ignores_rewardee (s : St) (q : Seq) (amt : Nat) (rw : Option Addr) :
+    slash s q amt ⟨0⟩ rw = burn s q amt := by
+  unfold slash
+  have h0 : ((Dec.mulInt ⟨0⟩ (amt : Int)).truncateInt).toNat = 0 := by
+    unfold Dec.mulInt Dec.truncateInt chopTrunc decP; simp
+  simp only [h0]
+  rfl
+
+-- non-vacuity: a1 (bond 10, reward share 5) punished with rewardee m0 = address 900 (the distribution
+-- module account): rejected with the bank's recipient error, bond / module account / burn counter /
+-- the blocked address's balance untouched, the rollapp not forked; the same proposal with the ordinary
+-- rewardee a7 is accepted (example above)
+example : blockedAddr 900 = true ∧ blockedAddr 7 = false ∧ blockedAddr 100007 = false := by decide
+def exBlockedPre : St := run exLive (exPre ++ [exUpd, .bridge 0 1])
+def exBlocked : St × Option Err := step exBlockedPre (.fraud true 0 2 0 (some 1) (some 900))
+example : exBlocked.2 = some .blockedRecipient ∧
+    ((getSeq exBlocked.1 1).map (·.tokens), exBlocked.1.modBal, exBlocked.1.burned, getBal exBlocked.1.bal 900) =
+      (some 10, 25, 0, 0) ∧
+    ((getRa exBlocked.1 0).map (·.revs.length), (getSeq exBlockedPre 1).map (·.tokens), exBlockedPre.modBal) =
+      (some 1, some 10, 25) := by decide
+/-- hypotheses of `punish_blocked_rewardee_refused` are satisfiable (reward share 5 ≠ 0) -/
+example : ((Dec.mulInt ⟨500000000000000000⟩ ((10 : Nat) : Int)).truncateInt).toNat = 5 := by decide
+/-- a bond of 1 has reward share 0: the punishment with a blocked rewardee goes through, all burned -/
+example : ((Dec.mulInt ⟨500000000000000000⟩ ((1 : Nat) : Int)).truncateInt).toNat = 0 := by decide
 
 -- non-vacuity: a concrete run with a bond, an increase and a liveness-free block keeps custody
 example : (run C06ex.1 C06ex.2).modBal = 30 ∧ ((run C06ex.1 C06ex.2).seqs.map (·.tokens)).sum = 30 := by decide
